@@ -252,6 +252,27 @@ CHECKS = {
               'under C15 (bounded).  Two genuine defects found by this check were repaired (fix commits b968792, ae3859b).'),
         technique='contract-based deductive verification with ghost RNG state: provenance of every draw in the symbolically executed real code',
     ),
+    'C17': dict(
+        category='exploration',
+        text=('Representation-invariant contracts Inv(object) -- reported count == number of names == accepted vector length == gradient length; '
+              'per-parameter IDs mark exactly the individual-level entries; default names distinct once prefixed by the ID; composite names in the '
+              'documented order; special-dimension table consistent -- stated on every population model (8 classes, all ordered pairs and '
+              'selected triples of 11 elementary kinds, reduced wrappers inside and outside composites), error model, covariate model, '
+              'LogLikelihood, HierarchicalLogLikelihood / HierarchicalLogPosterior (all 216 three-block compositions x 1-3 individuals, reduced '
+              'variants), PopulationFilterLogPosterior, PredictiveModel / PopulationPredictiveModel and ProblemModellingController, and checked '
+              'after the constructor and after every reconfiguration history (set_n_ids, set_dim_names, set_parameter_names, fix_parameters, '
+              'set_population_parameters, set_data, set_population_model, set_log_prior) of length <= 2 (3 for the controller; +1 in the thorough '
+              'tier) by executing the real methods.  These methods take no data values, so the execution decides the predicate for the '
+              'enumerated configuration; the enumeration itself is bounded, which is why the level is exploration and nothing here is counted '
+              'as proved except one obligation: n_hierarchical_parameters(n) for a symbolic number of individuals n equals the counts the '
+              'configured model reports, for all n (sympy identity over the traced arithmetic, 383 configurations).'),
+        design_ref='DESIGN.md section 4 (C17)',
+        note=('Bounded stand-in (run-time contracts), labelled bounded: n_dim <= 2 (3), n_ids <= 4, <= 3 sub-models, histories <= 2/3 operations; value-'
+              'dependent predicates (vector accepted, gradient length) at one in-domain point per configuration.  Four genuine defects found by '
+              'this check were repaired (fix commits 2dc17db, afa69df, b5031b1, 216d48d); two are recorded as known findings because baseline '
+              'tests pin the behaviour (default names collide after ComposedPopulationModel.set_dim_names(None); ReducedPopulationModel.n_ids()).'),
+        technique='contract-based: representation invariants on the real classes as run-time contracts, exhaustively enumerated bounded configurations and histories (bounded stand-in); one symbolic-n obligation discharged deductively',
+    ),
 }
 NOT_APPLICABLE = {}
 
@@ -272,4 +293,5 @@ CHECK_MODULES = {
     'C13': 'contracts.c13',
     'C15': 'contracts.c15',
     'C16': 'contracts.c16',
+    'C17': 'contracts.c17',
 }
